@@ -57,6 +57,11 @@ type xSchedule struct {
 	Seed   int64 `json:"seed"`
 	Yield  int   `json:"yield_percent"`
 	MaxDel int   `json:"max_delay_us"`
+	// the collector is held at its first result for this long: results pile up behind it until the
+	// result channel is full and the publishing steps block
+	StallMs int `json:"collector_stall_ms,omitempty"`
+	// GOMAXPROCS for the run (0 = unchanged)
+	Procs int `json:"procs,omitempty"`
 }
 
 type xCase struct {
@@ -125,6 +130,8 @@ type xRun struct {
 	schedMu     sync.Mutex
 	yield       int
 	maxDel      int
+	stallMs     int
+	stalled     bool
 }
 
 func (x *xRun) maybeYield() {
@@ -156,6 +163,16 @@ func (l xLogger) Debug(args ...interface{}) {
 	s, _ := args[0].(string)
 	switch {
 	case strings.HasPrefix(s, "Inserting result"):
+		l.x.mu.Lock()
+		stall := 0
+		if l.x.stallMs > 0 && !l.x.stalled {
+			l.x.stalled = true
+			stall = l.x.stallMs
+		}
+		l.x.mu.Unlock()
+		if stall > 0 {
+			time.Sleep(time.Duration(stall) * time.Millisecond)
+		}
 		// the collector took a result: remember where it goes (only the collector logs this)
 		if len(args) > 1 {
 			if ip, ok := args[1].([]string); ok {
@@ -348,7 +365,11 @@ type xObs struct {
 var reFail = regexp.MustCompile(`fail ([0-9]+)`)
 
 func runOnce(pl *xPlan, sc xSchedule, numbering map[string]int) xObs {
-	x := &xRun{numbering: numbering, sched: rand.New(rand.NewSource(sc.Seed)), yield: sc.Yield, maxDel: sc.MaxDel}
+	x := &xRun{numbering: numbering, sched: rand.New(rand.NewSource(sc.Seed)), yield: sc.Yield, maxDel: sc.MaxDel, stallMs: sc.StallMs}
+	if sc.Procs > 0 {
+		old := runtime.GOMAXPROCS(sc.Procs)
+		defer runtime.GOMAXPROCS(old)
+	}
 	for i := 0; i < numbering["failed-roots"]; i++ {
 		x.failedRoots = append(x.failedRoots, numbering[fmt.Sprintf("failed-root-%d", i)])
 	}
@@ -483,6 +504,21 @@ func runExec(cfg *runCfg, prop string) error {
 		// the shape that dead-locked the pinned tree first: one parent, many failing children
 		many := &xStep{ID: 0, Fan: 40, Kids: []*xStep{{ID: 1, Fan: 0, Fail: "transport"}}}
 		cases = append(cases, &xCase{Plan: &xPlan{Roots: []*xStep{many}}, Schedules: []xSchedule{{Seed: 1, Yield: 60, MaxDel: 300}, {Seed: 2, Yield: 0, MaxDel: 0}}})
+		// a collector that falls behind: twelve plain root steps and one whose dependents start late,
+		// and a fan-out wider than the result channel, with the collector held at its first result
+		{
+			late := &xPlan{}
+			for k := 0; k < 12; k++ {
+				late.Roots = append(late.Roots, &xStep{ID: k, Fan: 0})
+			}
+			late.Roots = append(late.Roots, &xStep{ID: 12, Fan: 2, Kids: []*xStep{{ID: 13, Fan: 0}}})
+			wide := &xPlan{Roots: []*xStep{{ID: 0, Fan: 40, Kids: []*xStep{{ID: 1, Fan: 0}}}}}
+			for _, pl := range []*xPlan{late, wide} {
+				cases = append(cases, &xCase{Plan: pl, Schedules: []xSchedule{
+					{Seed: 3, Yield: 0, MaxDel: 0, StallMs: 60, Procs: 1}, {Seed: 4, Yield: 0, MaxDel: 100, StallMs: 60, Procs: 1},
+					{Seed: 5, Yield: 0, MaxDel: 0, StallMs: 60}, {Seed: 6, Yield: 30, MaxDel: 200, StallMs: 30, Procs: 2}}})
+			}
+		}
 		for i := 0; i < n; i++ {
 			id := 0
 			pl := &xPlan{}
@@ -496,6 +532,9 @@ func runExec(cfg *runCfg, prop string) error {
 			cs := &xCase{Plan: pl}
 			for k := 0; k < 3; k++ {
 				cs.Schedules = append(cs.Schedules, xSchedule{Seed: r.Int63(), Yield: []int{0, 30, 70}[k], MaxDel: []int{0, 200, 1500}[r.Intn(3)]})
+			}
+			if i%6 == 0 {
+				cs.Schedules = append(cs.Schedules, xSchedule{Seed: r.Int63(), Yield: 0, MaxDel: []int{0, 200}[r.Intn(2)], StallMs: 25, Procs: 1 + r.Intn(2)})
 			}
 			cases = append(cases, cs)
 		}
@@ -555,6 +594,7 @@ func runExec(cfg *runCfg, prop string) error {
 		model := []string{}
 		oracle := []string{}
 		for _, sc := range cs.Schedules {
+			cfg.Crumb("plan-execution", cs)
 			o := runOnce(cs.Plan, sc, numbering)
 			allObs = append(allObs, o)
 			ot := fmt.Sprintf("{| ob_returned := %s; ob_called := %s; ob_ins := %s; ob_errs := %s; ob_late_calls := %d; ob_outstanding := %d; ob_changed_after := %s; ob_leaked := %d |}",
